@@ -265,7 +265,7 @@ def main():
         try: FNS[kind](case)
         except Fail as f: print("replay:", f.sig, f.what[:300], file=sys.stderr); return 3
         return 0
-    nv, ng, nc = (40, 60, 40) if THOROUGH else (8, 12, 10)
+    nv, ng, nc = (100, 150, 100) if THOROUGH else (8, 12, 10)
     run_property(run_verify_case, verify_cases, nv, "verify")
     # deterministic boundary lists (always run): 255/256/257/512 failing tokens
     if A.worker < 8:
